@@ -1,6 +1,7 @@
 package props
 
 import (
+	"errors"
 	"context"
 	"fmt"
 	"time"
@@ -48,8 +49,32 @@ func runC16(r *Run) {
 	r.S.Stick = []int{0, 60, 90}[t.Draw(3)]
 	r.S.MaxSteps = 40000
 	r.S.MaxSim = 3 * time.Minute
+	// stall: shortly before the trigger the peer stops reading for 4 s, so that a frame
+	// writer is stuck in the transport holding the frame lock while pingers with a 1 s
+	// context queue behind it and give up
+	stall := t.Pct(25)
+	holding := false
+	if stall {
+		if rc.Lib.Out().Cap > 512 {
+			rc.Lib.Out().Cap = 512
+		}
+		rc.Lib.Out().HardCap = true
+		peer.Hold = func() bool { return holding }
+		if nP == 0 {
+			nP = 1
+		}
+		if nW == 0 {
+			nW = 1
+		}
+		if msgLen < 600 {
+			msgLen = 3000
+		}
+	}
 
 	sig := fmt.Sprintf("trigger=%s,echo=%d", c16Triggers[trig], echo)
+	if stall {
+		sig += ",stall"
+	}
 	r.Class = fmt.Sprintf("%s/w%d/p%d/cli%v", sig, nW, nP, rc.Opts.LibClient)
 	r.D("role_lib_client", rc.Opts.LibClient)
 	r.D("ext", rc.Opts.Ext)
@@ -110,10 +135,14 @@ func runC16(r *Run) {
 			defer func() { live-- }()
 			for j := 0; j < 20; j++ {
 				r.S.Park("a." + name)
-				ctx, cancel := context.WithTimeout(bg, 3*time.Second)
+				d := 3 * time.Second
+				if stall {
+					d = time.Second
+				}
+				ctx, cancel := context.WithTimeout(bg, d)
 				err := c.Ping(ctx)
 				cancel()
-				if err != nil {
+				if err != nil && !(stall && errors.Is(err, context.DeadlineExceeded)) {
 					return
 				}
 			}
@@ -174,6 +203,16 @@ func runC16(r *Run) {
 	r.S.Go("trigger", func() {
 		for n := 0; n < fireAfter; n++ {
 			r.S.Park("a.trigger")
+		}
+		if stall {
+			holding = true
+			time.AfterFunc(4*time.Second, func() {
+				holding = false
+				r.S.Kick()
+			})
+			// fire in the middle of the stall, after the 1 s pings have given up
+			r.S.Sleep(1500 * time.Millisecond)
+			r.S.Count("fault.receiver-stall")
 		}
 		switch trig {
 		case 0:
